@@ -4,6 +4,7 @@ package main
 
 import (
 	"fmt"
+	"reflect"
 	"strings"
 
 	"github.com/osteele/liquid"
@@ -42,7 +43,8 @@ func classSpelling(c string, i int) string {
 // and tag leaves are matched in document order).
 type treeWalker struct {
 	toks []string
-	next int // next token position to match leaves against (1-based)
+	next int   // next token position to match leaves against (1-based)
+	raws []any // bodies of the raw nodes, in document order
 }
 
 func (w *treeWalker) leafPos(kind string) int {
@@ -70,12 +72,21 @@ func (w *treeWalker) nodes(ns []render.Node) []any {
 			out = append(out, J{"t": "tag", "i": -1})
 		case *render.RawNode:
 			out = append(out, J{"t": "raw"})
+			// the body is an unexported []string: read it through reflection
+			body := ""
+			if f := reflect.ValueOf(n).Elem().FieldByName("slices"); f.IsValid() && f.Kind() == reflect.Slice {
+				for i := 0; i < f.Len(); i++ {
+					body += f.Index(i).String()
+				}
+			}
+			w.raws = append(w.raws, bytesJSON(body))
 		case *render.BlockNode:
+			body := w.nodes(n.Body) // document order: the body, then the clauses
 			cl := []any{}
 			for _, c := range n.Clauses {
 				cl = append(cl, J{"name": c.Name, "body": w.nodes(c.Body)})
 			}
-			out = append(out, J{"t": "block", "name": n.Name, "body": w.nodes(n.Body), "clauses": cl})
+			out = append(out, J{"t": "block", "name": n.Name, "body": body, "clauses": cl})
 		case *render.SeqNode:
 			out = append(out, w.nodes(n.Children)...)
 		}
@@ -146,6 +157,10 @@ func runParse(c J) J {
 		}
 		numberLeaves(tree, pos)
 		obs["tree"] = tree
+		if w.raws == nil {
+			w.raws = []any{}
+		}
+		obs["raws"] = w.raws
 		return result{Outcome: "ok"}
 	})
 	obs["accepted"] = res.Outcome == "ok"
@@ -153,6 +168,7 @@ func runParse(c J) J {
 	res.put(obs)
 	if _, ok := obs["tree"]; !ok {
 		obs["tree"] = []any{}
+		obs["raws"] = []any{}
 	}
 	return obs
 }
